@@ -48,6 +48,7 @@ type dialogWorld struct {
 	// sweeps of the pin table pass in between)
 	linger       []*dlg
 	lastStraddle time.Time
+	probeCount   int
 }
 
 // backendIndex maps an endpoint name "be<s>.<k>/udp" to k-1.
@@ -301,6 +302,10 @@ func scenarioDialog() int {
 		}
 		w.history(h)
 		w.Net.Trim()
+		if h == 1 && prop == "C04" {
+			w.longLived()
+			w.Net.Trim()
+		}
 	}
 	for k, v := range w.stats {
 		run.Observe(k, v)
@@ -494,6 +499,99 @@ func (w *dialogWorld) history(h int) {
 			w.linger = append(w.linger, d)
 		}
 	}
+}
+
+// longLived: a few dialogs are set up on a service with the default lifetime, then thousands of
+// unrelated requests pass through the same service (each of them is relayed and answered by
+// nobody), then the dialogs go on: they must still stick to their backends, however much
+// other traffic the proxy has seen in between.
+func (w *dialogWorld) longLived() {
+	g := w.g
+	svc := 0
+	for s, sv := range w.Svcs {
+		if sv.DialogTimeout == 0 && len(sv.BeUDP) >= 2 {
+			svc = s
+			break
+		}
+	}
+	var ds []*dlg
+	for i := 0; i < 4; i++ {
+		d := &dlg{n: 800 + i, svc: svc, backend: -1, kind: "invite"}
+		d.callID = g.Alnum(8, 14) + "@" + g.Hostname()
+		d.a, d.b = w.genParty(88000+i, "alice"), w.genParty(88000+i, "bob")
+		for try := 0; try < 3 && !d.pinned && !d.ended; try++ {
+			w.stepDialog(d)
+		}
+		if d.pinned && !d.ended {
+			ds = append(ds, d)
+		}
+	}
+	if len(ds) == 0 {
+		w.run.Inconclusive(1)
+		return
+	}
+	n := ev.Pick(9500, 40000)
+	u := g.R.Intn(len(w.UAs))
+	path := wire.Path{UA: u, Svc: svc, Proto: "udp"}
+	sentN := 0
+	for sentN < n && w.run.Violations() <= 6 {
+		var last string
+		for k := 0; k < 48; k++ {
+			id := w.nextID("fl")
+			m := w.request(id, "OPTIONS", svc, dparty{"sip:flood@ua.verif.test", "f" + id}, dparty{"sip:nobody@callee.example", ""}, id+"@vf")
+			wire.SetHeader(m, "Via", fmt.Sprintf("SIP/2.0/UDP %s:%d;branch=z9hG4bKvf%s", w.UAs[u].IP, wire.UDPPort, id))
+			if w.Send(path, m.Bytes(), id) != nil {
+				break
+			}
+			last = id
+			sentN++
+		}
+		if last != "" {
+			w.Net.WaitCase(last, func(o []*wire.Obs) bool { return len(o) >= 1 }, w.BarrierWait)
+		}
+		if !w.Barrier(path) {
+			w.run.Inconclusive(1)
+			break
+		}
+		w.Net.Trim()
+	}
+	w.stats["unrelated_requests_relayed_while_dialogs_were_alive"] += sentN
+	w.lastRot[svc] = -1
+	for round := 0; round < 3; round++ {
+		for _, d := range ds {
+			if !d.ended && w.run.Violations() <= 6 {
+				w.probe(d)
+				w.stats["probes_of_dialogs_after_thousands_of_unrelated_requests"]++
+			}
+		}
+	}
+}
+
+// oversized: an in-dialog request that the proxy can receive but cannot pass on to the UDP
+// backend of the dialog (with the proxy's own Via it no longer fits a datagram). Whatever
+// happens to that request, the dialog goes on at its backend.
+func (w *dialogWorld) oversized(d *dlg) {
+	id := w.nextID("big")
+	m := w.request(id, "INFO", d.svc, d.a, d.b, d.callID)
+	u := w.g.R.Intn(len(w.UAs))
+	wire.SetHeader(m, "Via", fmt.Sprintf("SIP/2.0/UDP %s:%d;branch=z9hG4bKvf%s", w.UAs[u].IP, wire.UDPPort, id))
+	wire.WithBody(m, []byte{})
+	room := 65507 - len(m.Bytes()) - 5 // Content-Length grows from "0" to five digits
+	if room < 1000 {
+		return
+	}
+	body := make([]byte, room-w.g.R.Intn(12))
+	for i := range body {
+		body[i] = byte('a' + i%26)
+	}
+	wire.WithBody(m, body)
+	path := wire.Path{UA: u, Svc: d.svc, Proto: "udp"}
+	if w.Send(path, m.Bytes(), id) != nil {
+		return
+	}
+	w.Barrier(path)
+	w.stats["in_dialog_requests_too_big_for_the_datagram_to_the_backend"]++
+	w.Net.Forget(id)
 }
 
 // every class of final answer a BYE can get
@@ -705,6 +803,12 @@ func (w *dialogWorld) probe(d *dlg) {
 		}
 		extra = append(extra, sip.Header{Name: "Subscription-State", Value: st}, sip.Header{Name: "Event", Value: "presence"})
 		terminate = st == "terminated"
+	}
+	if w.prop == "C04" && d.backend >= 0 && d.backend < len(w.Svcs[d.svc].BeUDP) {
+		w.probeCount++
+		if w.probeCount%15 == 7 {
+			w.oversized(d)
+		}
 	}
 	w.avoidCoincidence(d)
 	id := w.nextID("p")
